@@ -15,6 +15,7 @@
 From Coq Require Import List NArith ZArith String Bool.
 From Coq Require Import Strings.Byte.
 From PV Require Import Base.Bytes Base.Outcome Gen.GenParsePrefixes Model.ParseText Proofs.ParseTextP Proofs.ParseTextK1.
+From PV Require Import Model.ParseTextHist Proofs.ParseTextHistP.
 Import ListNotations.
 Local Open Scope Z_scope.
 
@@ -416,3 +417,41 @@ Theorem C18_hd_privacy_is_marker : forall mulG modsqrt pre kind d o,
   hd_of_payload mulG modsqrt pre kind d = Ret (Some o) -> obj_is_private o = bytes_eqb (slice 45 46 d) [x00].
 Proof. exact hd_privacy_is_marker. Qed.
 Print Assumptions C18_hd_privacy_is_marker.
+
+(* ============================================================================================== *)
+(* 5. histories: ONE parseable_str object offered to many networks and entry points               *)
+(* ============================================================================================== *)
+(* Model/ParseTextHist.v: the object's decode cache holds one optional slot per DECODER (keyed by the decoding function:
+   "b58_double_sha256", "b58_groestl", "bech32"), whose value depends on the text only; nothing that depends on the
+   network is stored.  `run` is one call with explicit decoders (every entry point, `entry`); `history` threads the
+   store through a list of (entry point, network) calls on the shared object; `fresh` makes each call on a new str. *)
+
+(* an entry point sees a decoder only through its exception-swallowed value at the text itself *)
+Theorem C18_decoder_locality : forall int10 int16 compile hmac512 stretch mulG modsqrt b1 b1' b2 b2' e net s,
+  ps_cache b1 s = ps_cache b1' s -> ps_cache b2 s = ps_cache b2' s ->
+  run int10 int16 compile hmac512 stretch mulG modsqrt b1 b2 e net s =
+  run int10 int16 compile hmac512 stretch mulG modsqrt b1' b2' e net s.
+Proof. exact run_local. Qed.
+Print Assumptions C18_decoder_locality.
+
+(* history independence: whatever was parsed before with the same object (any networks, any entry points, any order),
+   every answer equals the answer for a fresh plain str on that network *)
+Theorem C18_history_independent : forall int10 int16 compile hmac512 stretch mulG modsqrt dec key_of bech32 calls st s,
+  consistent dec bech32 st s ->
+  history int10 int16 compile hmac512 stretch mulG modsqrt dec key_of bech32 st calls s =
+  fresh int10 int16 compile hmac512 stretch mulG modsqrt dec key_of bech32 calls s.
+Proof. exact history_independent. Qed.
+Print Assumptions C18_history_independent.
+
+Theorem C18_history_from_new_object : forall int10 int16 compile hmac512 stretch mulG modsqrt dec key_of bech32 calls s,
+  history int10 int16 compile hmac512 stretch mulG modsqrt dec key_of bech32 empty_store calls s =
+  fresh int10 int16 compile hmac512 stretch mulG modsqrt dec key_of bech32 calls s.
+Proof. exact history_from_new_object. Qed.
+Print Assumptions C18_history_from_new_object.
+
+(* the cache stays consistent under every call, and a new object's cache is consistent *)
+Theorem C18_cache_consistency : forall dec bech32 st k s,
+  consistent dec bech32 empty_store s /\
+  (consistent dec bech32 st s -> consistent dec bech32 (fill dec bech32 st k s) s).
+Proof. intros. split. apply empty_consistent. apply fill_consistent. Qed.
+Print Assumptions C18_cache_consistency.
